@@ -459,3 +459,9 @@ impl Reader {
 pub type Items<'a> = MapIterator<ItemView<'a>, &'a Reader, ops::Range<usize>>;
 pub type ItemTypes<'a> = MapIterator<u16, &'a Reader, ops::Range<usize>>;
 pub type ItemTypeItems<'a> = MapIterator<ItemView<'a>, &'a Reader, ops::Range<usize>>;
+
+#[cfg(kani)]
+mod verif_kani {
+    use super::*;
+    include!(concat!(env!("LIBTW2_VERIF_HARNESS"), "/datafile_raw.rs"));
+}
